@@ -220,3 +220,11 @@ BENIGN += [
          old='        if depth > self.env.max_recursion_depth:\n            raise JSONPathRecursionError("recursion limit exceeded", token=self.token)\n\n        yield node\n\n        if isinstance(node.value, dict):\n            for name, val in node.value.items():\n                if isinstance(val, (dict, list)):\n                    _node = node.new_child(val, name)\n                    yield from self._visit(_node, depth + 1)\n        elif isinstance(node.value, list):\n            for i, element in enumerate(node.value):\n                if isinstance(element, (dict, list)):\n                    _node = node.new_child(element, i)\n                    yield from self._visit(_node, depth + 1)\n\n',
          new='        # Recurse for all but the last container child of a node and carry on\n        # with the last one in this frame. Long chains of singly nested\n        # containers, the usual deep case, then need one generator in total\n        # rather than one per level, which keeps a generous max_recursion_depth\n        # clear of the interpreter\'s own recursion limit.\n        while True:\n            if depth > self.env.max_recursion_depth:\n                raise JSONPathRecursionError(\n                    "recursion limit exceeded", token=self.token\n                )\n\n            yield node\n\n            if isinstance(node.value, dict):\n                children = [\n                    node.new_child(val, name)\n                    for name, val in node.value.items()\n                    if isinstance(val, (dict, list))\n                ]\n            elif isinstance(node.value, list):\n                children = [\n                    node.new_child(element, i)\n                    for i, element in enumerate(node.value)\n                    if isinstance(element, (dict, list))\n                ]\n            else:\n                return\n\n            if not children:\n                return\n\n            for _node in children[:-1]:\n                yield from self._visit(_node, depth + 1)\n\n            # Descend into the last child without a new generator.\n            node, depth = children[-1], depth + 1\n\n'),
 ]
+
+
+BENIGN += [
+    # exact integer literals: mantissa and exponent converted separately, exponent bounded before the power is taken
+    dict(id="c13-int-literal-partition-bounded", props=["C13", "C03", "C04", "C12"], file=S + "parse.py",
+         old="            return IntegerLiteral(stream.current, value=int(float(value)))\n        except (ValueError, OverflowError) as err:",
+         new="            significand, _, exponent = value.lower().partition(\"e\")\n            exp = int(exponent) if exponent else 0\n            if exp > 308:  # noqa: PLR2004\n                raise OverflowError(\"exponent beyond the range of a double\")\n            return IntegerLiteral(stream.current, value=int(significand) * 10**exp)\n        except (ValueError, OverflowError) as err:"),
+]
